@@ -131,29 +131,39 @@ fn hash_value(value: &Value) -> u64 {
     use std::collections::hash_map::DefaultHasher;
     use std::hash::{Hash, Hasher};
     let mut hasher = DefaultHasher::new();
-    match value {
-        Value::Null => 0u8.hash(&mut hasher),
-        Value::Bool(b) => b.hash(&mut hasher),
-        Value::Int64(i) => i.hash(&mut hasher),
-        Value::Float64(f) => f.to_bits().hash(&mut hasher),
-        Value::String(s) => s.hash(&mut hasher),
-        _ => 0u8.hash(&mut hasher),
-    }
+    hash_tagged(value, &mut hasher);
     hasher.finish()
+}
+/// the kind of the value is part of the hash since /repo b5cd4ea (NULL and FALSE used to collide: C17-K8)
+fn hash_tagged(value: &Value, hasher: &mut std::collections::hash_map::DefaultHasher) {
+    use std::hash::Hash;
+    match value {
+        Value::Null => 0u8.hash(hasher),
+        Value::Bool(b) => {
+            1u8.hash(hasher);
+            b.hash(hasher);
+        }
+        Value::Int64(i) => {
+            2u8.hash(hasher);
+            i.hash(hasher);
+        }
+        Value::Float64(f) => {
+            3u8.hash(hasher);
+            f.to_bits().hash(hasher);
+        }
+        Value::String(s) => {
+            4u8.hash(hasher);
+            s.hash(hasher);
+        }
+        _ => 9u8.hash(hasher),
+    }
 }
 fn hash_row(row: &[Value]) -> u64 {
     use std::collections::hash_map::DefaultHasher;
-    use std::hash::{Hash, Hasher};
+    use std::hash::Hasher;
     let mut hasher = DefaultHasher::new();
     for value in row {
-        match value {
-            Value::Null => 0u8.hash(&mut hasher),
-            Value::Bool(b) => b.hash(&mut hasher),
-            Value::Int64(i) => i.hash(&mut hasher),
-            Value::Float64(f) => f.to_bits().hash(&mut hasher),
-            Value::String(s) => s.hash(&mut hasher),
-            _ => 0u8.hash(&mut hasher),
-        }
+        hash_tagged(value, &mut hasher);
     }
     hasher.finish()
 }
@@ -790,7 +800,7 @@ fn case_accum(r: &mut Rng, out: &mut Out, forced: Option<Vec<Vec<V>>>) {
         coq: Some(format!("chk_accum {} {} {} {} {} {} {} {} {}", tree_coq(&tree), acc_coq(&seq), acc_coq(&par_acc), fp[0].coq(), fp[1].coq(), fp[2].coq(), fp[3].coq(), fp[4].coq(), avg_p)),
         oracle: ok_or(same),
         msg: if same { String::new() } else { format!("sequential finalizers {:?} differ from merged {:?}", fs, fp) },
-        kid: if same { None } else { Some("C17-K2".into()) },
+        kid: if same { None } else { Some("C17-K12".into()) },
         kcoq: if same { None } else { Some(format!("k_accum_mixed {}", tree_coq(&tree))) },
         nontrivial: tree_leaves(&tree) >= 2 && vals.len() >= 2,
         imp: format!("seq={:?} merged={:?}", fs, fp),
@@ -2157,8 +2167,9 @@ fn main() {
     let d = fresh_dir("corpus");
     case_merge_all(&mut r, &mut out, &d, Some((k0.clone(), (0..4).map(|j| vec![i(1, j)]).collect(), vec![])));
     case_merge_all(&mut r, &mut out, &d, Some((k0.clone(), vec![vec![i(1, 0)]], vec![i(1, 1), i(0, 2)])));
-    // C17-K2: MIN over a column mixing Int64 and Float64
+    // C17-K2 (fixed by e7fe7cd): MIN over a column mixing Int64 and Float64; C17-K12: numbers mixed with strings
     case_accum(&mut r, &mut out, Some(vec![vec![V::Int(1)], vec![V::Flt(0), V::Int(0)]]));
+    case_accum(&mut r, &mut out, Some(vec![vec![V::Int(1)], vec![V::Str(0), V::Int(0)]]));
     case_accum(&mut r, &mut out, Some(vec![vec![V::Int(1), V::Int(5)], vec![V::Int(0), V::Null]]));
     // C17-K3 / K4
     for w in 0..4 {
